@@ -26,7 +26,8 @@ Fixpoint qpow (q : Qc) (n : nat) : Qc := match n with O => 1 | S n' => q * qpow 
 Definition kw_get (k : string) (kw : list (string * Qc)) (dflt : Qc) : Qc :=
   match dict_get k kw with Some v => v | None => dflt end.
 
-(** family 0: binomial(p); family 1: linear weights a*k + b.  [None] = ValueError *)
+(** family 0: binomial(p); family 1: linear weights a*k + b with 0 <= a <= 100,
+    0 < b <= 100.  [None] = ValueError *)
 Definition fam_weights (fam maxt : nat) (kw : list (string * Qc)) : option vec :=
   match fam with
   | O => let p := kw_get "p" kw (qc 1 2) in
@@ -34,7 +35,7 @@ Definition fam_weights (fam maxt : nat) (kw : list (string * Qc)) : option vec :
          then Some (map (fun k => qnat (binom maxt k) * qpow p k * qpow (1 - p) (maxt - k)) (seq 0 (S maxt)))
          else None
   | _ => let a := kw_get "a" kw (qc 1 2) in let b := kw_get "b" kw 1 in
-         if Qc_leb 0 a && negb (Qc_leb b 0)
+         if Qc_leb 0 a && Qc_leb a (qc 100 1) && negb (Qc_leb b 0) && Qc_leb b (qc 100 1)
          then Some (map (fun k => a * qnat k + b) (seq 0 (S maxt)))
          else None
   end.
